@@ -2224,10 +2224,11 @@ def _one_info_identifier_alias(
     self: fst.FST, static: onestatic, idx: int | None, field: str
 ) -> oneinfo:  # required, cannot delete or put new
     ln, col, end_ln, end_col = self.loc
-    end_col = re_identifier_alias.match(self.root._lines[ln], col,
-                                        end_col if end_ln == ln else 0x7fffffffffffffff).end()  # must be there
 
-    return oneinfo('', None, fstloc(ln, col, ln, end_col))
+    if self.a.asname is not None:  # name (which may be written with whitespace around its dots) ends before the `as`
+        end_ln, end_col = _one_info_alias_asname(self, static, idx, field).loc_insdel[:2]
+
+    return oneinfo('', None, fstloc(ln, col, end_ln, end_col))
 
 _onestatic_alias_name_all    = onestatic(_one_info_identifier_alias, _restrict_default, code_as=code_as_identifier_alias)
 _onestatic_alias_name_dotted = onestatic(_one_info_identifier_alias, _restrict_default, code_as=code_as_identifier_dotted)
